@@ -152,6 +152,10 @@ def check_cli(fmt, size, spec, use_filter, src_fmt='export', encs=None):
                     'what': '--split: ' + kind})
     d = scratch()
     src = os.path.join(d, 'c17.' + src_fmt)
+    for old in glob.glob(os.path.join(d, 'c17out') + '*'):
+        os.unlink(old)
+    if size % 3 == 0:
+        src = os.path.join(d, 'c17out.0')       # the source file has the name the first part will get (it is read before it is replaced)
     src_enc, dest_enc = encs or ('utf-8', 'utf-8')
     with open(src, 'w', encoding=src_enc) as f:
         if src_fmt == 'tigerxml':
@@ -160,8 +164,6 @@ def check_cli(fmt, size, spec, use_filter, src_fmt='export', encs=None):
             f.write({'export': codecs.encode_export, 'brackets': codecs.encode_brackets,
                      'discobrackets': codecs.encode_discobrackets}[src_fmt](mts))
     dest = os.path.join(d, 'c17out')
-    for old in glob.glob(dest + '*'):
-        os.unlink(old)
     argv = ['transform', src, dest, '--src-format', src_fmt, '--dest-format', fmt, '--split', spec]
     if encs:
         argv += ['--src-enc', src_enc, '--dest-enc', dest_enc]
